@@ -12,18 +12,18 @@ pub mod a6 {
       relation r1(i64);
       relation r2(i64, i64);
       relation r3(i64, i64);
-      relation r4(i64, i64);
-      relation r5(i64);
-      relation r6(i64);
+      relation r4(i64);
+      relation r5(i64, i64);
+      relation r6(i64, i64);
       r2(((*v1) + 1), v0) <-- let v0 = 2, r1(v1) if (v0 != 1), r2(((*v1) + 0), v1), if ((*v1) < 6);
       r3(v0, v1) <-- let v0 = 0, r2((v0 + 0), v0), r1(v1);
       r3(v0, v1) <-- r3(v0, v1), r2(((*v0) + 1), v2);
       r2(v0, v1) <-- r3(v0, v1) if ((*v0) < 3), r3(v1, v2) if ((*v2) != (*v1));
       r3(v1, ((*v1) + 1)) <-- if let Some(v0) = Some(2), r3((v0 + 0), v1), r0(v1, v1, v2) if ((*v2) <= 1), if ((*v1) < 6);
       r3(v1, (v0 + 1)) <-- if let Some(v0) = Some(0), r0(v0, 0, v1), if (v0 < 6);
-      r4(v1, (v21 as i64)) <-- r3(v0, v1), agg v21 = count() in r2(_, _);
-      r5(v0) <-- r1(v0), agg v21 = count() in r3(_, _);
-      r6(v1) <-- r3(v0, v1), agg v21 = count() in r1(_);
+      r4(v32) <-- r3(v0, v1), r2(v32, v33), agg v21 = count() in r2((*v1), (*v0));
+      r5(v0, v21) <-- r1(v0), agg v21 = min(v20) in r0(v20, _, (*v0));
+      r6(v0, v21) <-- r3(v0, v1), r1(v32), agg v21 = sum(v20) in r1(v20);
    }
    pub struct Inst { p: Prog, pool: Option<ascent::rayon::ThreadPool> }
    pub fn make(pool: Option<usize>) -> Box<dyn Driver> {
@@ -38,14 +38,15 @@ pub mod a6 {
          1 => { let v: Vec<(i64,)> = parse_rows(rows)?; if append { self.p.r1.extend(v) } else { self.p.r1 = v } },
          2 => { let v: Vec<(i64,i64,)> = parse_rows(rows)?; if append { self.p.r2.extend(v) } else { self.p.r2 = v } },
          3 => { let v: Vec<(i64,i64,)> = parse_rows(rows)?; if append { self.p.r3.extend(v) } else { self.p.r3 = v } },
-         4 => { let v: Vec<(i64,i64,)> = parse_rows(rows)?; if append { self.p.r4.extend(v) } else { self.p.r4 = v } },
-         5 => { let v: Vec<(i64,)> = parse_rows(rows)?; if append { self.p.r5.extend(v) } else { self.p.r5 = v } },
-         6 => { let v: Vec<(i64,)> = parse_rows(rows)?; if append { self.p.r6.extend(v) } else { self.p.r6 = v } },
+         4 => { let v: Vec<(i64,)> = parse_rows(rows)?; if append { self.p.r4.extend(v) } else { self.p.r4 = v } },
+         5 => { let v: Vec<(i64,i64,)> = parse_rows(rows)?; if append { self.p.r5.extend(v) } else { self.p.r5 = v } },
+         6 => { let v: Vec<(i64,i64,)> = parse_rows(rows)?; if append { self.p.r6.extend(v) } else { self.p.r6 = v } },
             _ => return None,
          }
          Some(())
       }
       fn run(&mut self) { match &self.pool { Some(pl) => { let p = &mut self.p; pl.install(|| p.run()) }, None => self.p.run() } }
+      fn run_here(&mut self) { self.p.run() }
       fn run_timeout(&mut self, k: usize) -> Option<bool> { let _ = k; None }
       fn dump(&self) -> String { vec![dump_rel(0, self.p.r0.iter().map(Row::render).collect()), dump_rel(1, self.p.r1.iter().map(Row::render).collect()), dump_rel(2, self.p.r2.iter().map(Row::render).collect()), dump_rel(3, self.p.r3.iter().map(Row::render).collect()), dump_rel(4, self.p.r4.iter().map(Row::render).collect()), dump_rel(5, self.p.r5.iter().map(Row::render).collect()), dump_rel(6, self.p.r6.iter().map(Row::render).collect())].join(" | ") }
       fn iters(&self) -> String { format!("iters {}", self.p.scc_iters.iter().map(|x| x.to_string()).collect::<Vec<_>>().join(" ")) }
@@ -74,10 +75,10 @@ pub mod a14 {
       r3(v0, v1) <-- r3(v0, v1) if ((*v0) < 3), r3(v1, v2) if ((*v2) != (*v1));
       r2(2, v0, v0) <-- r3(v0, 1), r0(2, ((*v0) + 0), v0);
       r2(v1, 0, ((*v2) + 1)) <-- r0(v0, v1, v2), if ((*v2) < 6);
-      r4(v1, v21) <-- r0(v0, v1, v2), agg v21 = sum(v20) in r2((*v0), 3, v20);
-      r5(v1) <-- r2(v0, v1, v2), agg v21 = count() in r3(0, (*v0));
-      r6(v0, (v21 as i64)) <-- r3(v0, v1), agg v21 = count() in r1(_, (*v1), 3);
-      r7(v1) <-- r1(v0, v1, v2), agg v21 = max(v20) in r3((*v2), v20);
+      r4(v0, v21) <-- r0(v0, v1, v2), r3(v1, v0), agg v21 = sum(v20) in r2(v20, _, (*v1));
+      r5(v2) <-- r0(v0, v1, v2), agg () = not() in r1(_, _, _);
+      r6(v2, 0) <-- r0(v0, v1, v2), agg () = not() in r3(_, (*v0));
+      r7(v2) <-- r1(v0, v1, v2), agg v21 = sum(v20) in r2(v20, (*v2), (*v2));
    }
    pub struct Inst { p: Prog, pool: Option<ascent::rayon::ThreadPool> }
    pub fn make(pool: Option<usize>) -> Box<dyn Driver> {
@@ -101,6 +102,7 @@ pub mod a14 {
          Some(())
       }
       fn run(&mut self) { match &self.pool { Some(pl) => { let p = &mut self.p; pl.install(|| p.run()) }, None => self.p.run() } }
+      fn run_here(&mut self) { self.p.run() }
       fn run_timeout(&mut self, k: usize) -> Option<bool> { let _ = k; None }
       fn dump(&self) -> String { vec![dump_rel(0, self.p.r0.iter().map(Row::render).collect()), dump_rel(1, self.p.r1.iter().map(Row::render).collect()), dump_rel(2, self.p.r2.iter().map(Row::render).collect()), dump_rel(3, self.p.r3.iter().map(Row::render).collect()), dump_rel(4, self.p.r4.iter().map(Row::render).collect()), dump_rel(5, self.p.r5.iter().map(Row::render).collect()), dump_rel(6, self.p.r6.iter().map(Row::render).collect()), dump_rel(7, self.p.r7.iter().map(Row::render).collect())].join(" | ") }
       fn iters(&self) -> String { format!("iters {}", self.p.scc_iters.iter().map(|x| x.to_string()).collect::<Vec<_>>().join(" ")) }
